@@ -82,8 +82,14 @@ let s_tok = function
   | TEnd -> "End"
 
 (* ---------- state ---------- *)
-type side = { w : world; reported : int }      (* reported = how many entries of w.dropped were printed *)
-let fresh () = { w = init; reported = 0 }
+(* reported = how many entries of w.dropped were printed; harr/hn = the issued table as an array *)
+type side = { w : world; reported : int; harr : nid array ref; hn : int ref; pend : n list }
+let dummy_id = { idx = O; gen = Z0 }
+let fresh () = { w = init; reported = 0; harr = ref (Array.make 16 dummy_id); hn = ref 0; pend = [] }
+let push_handle (s : side) (x : nid) =
+  if !(s.hn) >= Array.length !(s.harr) then s.harr := Array.append !(s.harr) (Array.make (Array.length !(s.harr)) dummy_id);
+  !(s.harr).(!(s.hn)) <- x; incr s.hn
+let copy_side (s : side) = { s with harr = ref (Array.copy !(s.harr)); hn = ref !(s.hn) }
 
 let dbg = ref true
 let cur = ref (fresh ())
@@ -96,11 +102,16 @@ let rendering : rendering = fun v mode ->
   let vi = int_of_n v and mi = int_of_nat mode in
   match Hashtbl.find_opt rend_tbl (vi, mi) with Some c -> c | None -> [decimal_bytes vi]
 
-let handle (k : int) : nid option = List.nth_opt !cur.w.issued k
+let handle (k : int) : nid option = if k >= 0 && k < !(!cur.hn) then Some !(!cur.harr).(k) else None
 
 let do_step (o : op) : string =
   let (w', out) = step !dbg !cur.w o in
-  cur := { !cur with w = w' };
+  (* the ghost lists never influence [step]; the drop log is moved to [pend] (newest first) and the
+     id lists are dropped so that very long histories stay linear *)
+  cur := { !cur with w = { w' with issued = []; removed = []; dropped = [] };
+                     pend = List.rev_append w'.dropped !cur.pend };
+  (match out with OutId x -> push_handle !cur x | _ -> ());
+  (match o with OClear -> !cur.hn := 0 | _ -> ());
   s_outcome out
 
 let rec drop_n k l = if k <= 0 then l else match l with [] -> [] | _ :: t -> drop_n (k - 1) t
@@ -143,7 +154,7 @@ let process (line : string) : string option =
   | ["clear"] -> Some (do_step OClear)
   | ["reserve"; k] -> Some (do_step (OReserve (nat_of_int (int_of_string k))))
   | ["fork"] ->
-      alt := Some { w = { !cur.w with dropped = [] }; reported = 0 }; Some "r ok"
+      alt := Some { (copy_side !cur) with pend = []; reported = 0 }; Some "r ok"
   | ["swap"] ->
       (match !alt with
        | Some a -> let c = !cur in cur := a; alt := Some c
@@ -162,8 +173,11 @@ let process (line : string) : string option =
   | ["qeq"] -> Some (match !alt with None -> "e -" | Some a -> if a.w.ar = !cur.w.ar then "e 1" else "e 0")
   | ["qr"] ->
       let a = !cur.w.ar in
-      let s = String.concat "" (List.map (fun x ->
-        match id_is_removed x a with Ok true -> "1" | Ok false -> "0" | _ -> "p") !cur.w.issued) in
+      let b = Buffer.create 64 in
+      for i = 0 to !(!cur.hn) - 1 do
+        Buffer.add_char b (match id_is_removed !(!cur.harr).(i) a with Ok true -> '1' | Ok false -> '0' | _ -> 'p')
+      done;
+      let s = Buffer.contents b in
       Some (if s = "" then "m" else "m " ^ s)
   | ["ql"] ->
       let a = !cur.w.ar in
@@ -189,12 +203,12 @@ let process (line : string) : string option =
           (match pretty_print !dbg rendering (nat_of_int (int_of_string mode)) x !cur.w.ar with
            | Ok b -> "p " ^ hex_of_bytes b | Panic _ -> "p panic" | Diverge -> "p diverge"))
   | ["drops"] ->
-      let l = drop_n !cur.reported !cur.w.dropped in
-      cur := { !cur with reported = List.length !cur.w.dropped };
+      let l = List.rev !cur.pend in
+      cur := { !cur with pend = [] };
       Some ("x" ^ s_payloads l)
   | ["end"] ->
-      let c = drop_n !cur.reported (drop_arena !cur.w) in
-      let a = (match !alt with Some a -> drop_n a.reported (drop_arena a.w) | None -> []) in
+      let c = List.rev !cur.pend @ drop_arena !cur.w in
+      let a = (match !alt with Some a -> List.rev a.pend @ drop_arena a.w | None -> []) in
       cur := fresh (); alt := None;
       Some ("x" ^ s_payloads c ^ " ;" ^ s_payloads a)
   | _ -> Some ("? " ^ line)
@@ -242,8 +256,15 @@ let p_err = function
   | "PrependAncestor" -> PrependAncestor | "InsertBeforeAncestor" -> InsertBeforeAncestor
   | "InsertAfterAncestor" -> InsertAfterAncestor | s -> failwith ("unknown error variant " ^ s)
 
-type mside = { mar : arena; missued : nid list; mflags : string; mever : int list; mdrops : int list }
-let mfresh () = { mar = empty_arena; missued = []; mflags = ""; mever = []; mdrops = [] }
+type mside = { mar : arena; mh : nid array ref; mn : int ref; mset : (int * int, unit) Hashtbl.t;
+               mflags : string; mever : int list; mdrops : int list }
+let mfresh () = { mar = empty_arena; mh = ref (Array.make 16 dummy_id); mn = ref 0; mset = Hashtbl.create 64;
+                  mflags = ""; mever = []; mdrops = [] }
+let mcopy (s : mside) = { s with mh = ref (Array.copy !(s.mh)); mn = ref !(s.mn); mset = Hashtbl.copy s.mset }
+let mpush (s : mside) (x : nid) =
+  if !(s.mn) >= Array.length !(s.mh) then s.mh := Array.append !(s.mh) (Array.make (Array.length !(s.mh)) dummy_id);
+  !(s.mh).(!(s.mn)) <- x; incr s.mn;
+  Hashtbl.replace s.mset (int_of_nat x.idx, int_of_z x.gen) ()
 
 let monitor (opsf : string) (obsf : string) (outf : string) =
   let ic = open_in opsf and ib = open_in obsf and oc = open_out outf in
@@ -256,7 +277,7 @@ let monitor (opsf : string) (obsf : string) (outf : string) =
   let report prop msg =
     Printf.fprintf oc "MON %s hist=%d step=%d cmd=[%s] %s\n" prop !hist !stepn !lastcmd msg in
   let codes l = String.concat "," (List.map (fun c -> string_of_int (int_of_n c)) l) in
-  let mhandle k = List.nth_opt !cur.missued k in
+  let mhandle k = if k >= 0 && k < !(!cur.mn) then Some !(!cur.mh).(k) else None in
   let stored (a : arena) = List.filter_map (fun nd -> match nd.data with Data v -> Some (int_of_n v) | _ -> None) a.nodes in
   let same_multiset l1 l2 = List.sort compare l1 = List.sort compare l2 in
   let nodup l = let s = List.sort compare l in let rec go = function a :: (b :: _ as r) -> a <> b && go r | _ -> true in go s in
@@ -322,8 +343,9 @@ let monitor (opsf : string) (obsf : string) (outf : string) =
            | ["r"; "id"; i] ->
                let x = p_id i in
                bump "C06";
-               if List.exists (fun y -> nid_eqb x y) !cur.missued then report "C06" ("id " ^ i ^ " was issued before");
-               cur := { !cur with missued = !cur.missued @ [x]; mever = v :: !cur.mever }
+               if Hashtbl.mem !cur.mset (int_of_nat x.idx, int_of_z x.gen) then report "C06" ("id " ^ i ^ " was issued before");
+               mpush !cur x;
+               cur := { !cur with mever = v :: !cur.mever }
            | _ -> ()) in
          (match toks with
           | ["hist"; k] -> hist := int_of_string k; stepn := 0; cur := mfresh (); alt := None; pending := None;
@@ -337,9 +359,9 @@ let monitor (opsf : string) (obsf : string) (outf : string) =
           | ["rst"; a] -> h1 a (fun x -> ORemoveSubtree x)
           | ["wr"; a; v] -> h1 a (fun x -> OWrite (x, n_of_int (int_of_string v)));
                             (match outcome_of () with Some OutUnit -> cur := { !cur with mever = int_of_string v :: !cur.mever } | _ -> ())
-          | ["clear"] -> setp (Some OClear); cur := { !cur with missued = []; mflags = "" }
+          | ["clear"] -> setp (Some OClear); !cur.mn := 0; Hashtbl.reset !cur.mset; cur := { !cur with mflags = "" }
           | ["reserve"; k] -> setp (Some (OReserve (nat_of_int (int_of_string k))))
-          | ["fork"] -> alt := Some { !cur with mdrops = []; mever = stored !cur.mar }; pending := Some ("fork", None, None, !cur.mar)
+          | ["fork"] -> alt := Some { (mcopy !cur) with mdrops = []; mever = stored !cur.mar }; pending := Some ("fork", None, None, !cur.mar)
           | ["swap"] ->
               (match !alt with
                | Some a -> let c = !cur in cur := a; alt := Some c
@@ -367,14 +389,14 @@ let monitor (opsf : string) (obsf : string) (outf : string) =
               let flags = (match otoks with ["m"; f] -> f | _ -> "") in
               bump "C06";
               let a = !cur.mar in
-              List.iteri (fun i x ->
-                if i < String.length flags then begin
+              Array.iteri (fun i x ->
+                if i < !(!cur.mn) && i < String.length flags then begin
                   let want = if live_b a x then '0' else '1' in
                   if flags.[i] <> want then report "C06" (Printf.sprintf "is_removed(%s) = %c, expected %c" (s_id x) flags.[i] want);
                   if i < String.length !cur.mflags && !cur.mflags.[i] = '1' && flags.[i] <> '1' then
                     report "C06" (Printf.sprintf "is_removed(%s) went back to false" (s_id x))
-                end) !cur.missued;
-              if String.length flags <> List.length !cur.missued then report "C06" "wrong number of is_removed flags";
+                end) !(!cur.mh);
+              if String.length flags <> !(!cur.mn) then report "C06" "wrong number of is_removed flags";
               cur := { !cur with mflags = flags }
           | ["ql"] ->
               bump "C11";
